@@ -77,6 +77,9 @@ def scripts(rng, tier, n=None):
                 muts.append(("splice", src, tot, o_src, o_tot, tl))
             # RTP <-> RTCP
             muts.append(("cross", src))
+            # the genuine packet under another rollover counter (the ROC is authenticated: HMAC covers it, GCM has it in the IV)
+            if not rtcp:
+                muts.append(("roc", src, rng.choice([1, 2, 0x10000, 0x20000, 0xffff0000, 0x7fff0000])))
             sid = fresh_rx()
             if wild:
                 prev = [g for g in genuine if g[3] == s and g[0] != src and g[3] == ssrc]
@@ -90,6 +93,15 @@ def scripts(rng, tier, n=None):
                     for (cut_a, from_b) in ((at - tl, bt - tl), (at - p.rtp[4] if not rtcp else at - p.rtcp[4], bt - (p.rtp[4] if not rtcp else p.rtcp[4]))):
                         L.append(pkt_op(uop, sid, f"@{a:x}<{max(cut_a,0):x}&{b:x}:{max(from_b,0):x}", cap=tot + 60, mode=rng.choice([0, 1])))
                         L.append("# M s")
+                    continue
+                if isinstance(m, tuple) and m[0] == "roc":
+                    # a receiver that was told another ROC for this SSRC (srtp_stream_set_roc needs the stream to exist:
+                    # explicit policies only)
+                    if not wild:
+                        rs = fresh_rx()
+                        L.append(f"setroc {rs:x} {H(s)} {H(m[2])}")
+                        L.append(pkt_op(uop, rs, f"@{m[1]:x}", cap=tot + 60, mode=rng.choice([0, 1])))
+                        L.append("# M roc")
                     continue
                 if isinstance(m, tuple) and m[0] == "cross":
                     L.append(pkt_op("unprotect" if rtcp else "unprotect_rtcp", sid, f"@{m[1]:x}", cap=tot + 60, mode=rng.choice([0, 1])))
@@ -125,7 +137,7 @@ def monitor(script, c):
                             B = bytes.fromhex(ob[4]) if ob[4] != "-" else b""
                             if A[:cut] + B[off:] in (A, B):
                                 continue
-                kind = {"~": "bit flip", "<": "truncation", "+": "extension", "cross": "RTP/RTCP splice", "s": "tag/trailer/MKI substitution"}.get(t[2] if len(t) > 2 else "", "mutation")
+                kind = {"~": "bit flip", "<": "truncation", "+": "extension", "cross": "RTP/RTCP splice", "s": "tag/trailer/MKI substitution", "roc": "a different rollover counter"}.get(t[2] if len(t) > 2 else "", "mutation")
                 hits.append({"what": f"a packet altered by {kind} was accepted", "signature": "mutated-accepted:" + kind.replace(" ", "-") + ":" + o[1],
                              "detail": f"line {i-1}: {sl[i-2][:120]}"}); break
         if len(t) > 1 and t[0] == "#" and t[1] == "OK":
